@@ -11,7 +11,7 @@ TB = ('Trusted: Lean 4.33 kernel; axioms propext/Classical.choice/Quot.sound onl
 CLAIMED = {
  'C04': dict(level='proof', technique='Lean 4 proof: rule tables regenerated from /repo, exactness on all abstract valuations by decide +kernel per logic, generic lift lemmas; frame closure vs proved Lean closure',
    text='Per logic and rule row, exactness (node satisfied iff some extension is, with witness / for all points) is a finite statement over operand value pairs resp. value profiles; it is regenerated from the running code and evaluated by the Lean kernel for all 57 logics (rules_exact, rules_sound, rules_total, rules_local). Generic theorems (Ptx/Props/C04.lean) lift the forward half to arbitrary sentences, structures, domain sizes and frames; frame-rule closure is compared with a Lean closure function proved to be the least relation with the frame property.',
-   note=TB + ' Assumes rules are uniform in their operands (templates are abstracted from probes with atomic operands; validated by whole-proof replay in C01). The backward half of the generic lift and the quantifier-rule lift are not yet proved (the abstract iff is checked in full).'),
+   note=TB + ' Assumes rules are uniform in their operands (templates are abstracted from probes with atomic operands; validated by whole-proof replay in C01). The backward half of the generic lift is not yet proved (the abstract iff is checked in full for every rule row; the forward half is lifted for operator, quantifier and modal rules).'),
  'C05': dict(level='proof', technique='Lean 4 proof: closure and read tables regenerated from /repo, exactness by decide +kernel per logic, generic lift (closing_unsat)',
    text='Closure behaviour on every subset of literal constraints and the value read by the model builder are regenerated from real branches for every logic; the kernel evaluates closes <-> unsatisfiable and read-value-satisfies for all rows; generic theorems lift this to branches of arbitrary sentences in arbitrary structures, and prove ~a=a / ~E!a unsatisfiable in classical structures.',
    note=TB + ' Assumes closure is local to one sentence at one world (validated by the extractor on atom vs predication and cross-world pairs).'),
@@ -41,8 +41,8 @@ CLAIMED.update({
 })
 CLAIMED.update({
  'C01': dict(level='proof', technique='Lean 4 proof: generic soundness theorem over every finite sequence of legal steps (no scheduler model), instantiated per logic from kernel-evaluated side conditions on regenerated rule/closure/trunk/frame data; whole-proof replay correspondence; bounded countermodel search only for replays',
-   text='C01_valid_sound_partial: for any logic data passing the decidable side checks, any tableau reachable from the trunk by ANY finite sequence of legal steps (operator, modal, closure, frame, identity, quit-flag steps) with all branches closed admits no countermodel in any structure of the logic (arbitrary worlds/domains, frame condition, documented tables). Since the derivation is arbitrary, every optimisation option, tie-break order, build/step loop and premise order is inside the quantifier. Instantiated for all 57 logics (Ptx.Gen.Obl.<L>.c01_valid_sound). Real runs are replayed step by step (each step must be a legal instance, final branches equal node for node), so the theorem applies to those runs; rules outside the sound part (Bochvar and FDE biconditional rules: known findings) exclude a run from the theorem and send it to the countermodel search.',
-   note=TB + ' The quantifier-rule layer of the generic proof (substitution lemma) is not finished: derivations containing quantifier-rule steps are covered by replay legality + bounded countermodel search only (theorem named _partial). Spec structures interpret classical Identity as real identity.'),
+   text='C01_valid_sound: for any logic data passing the decidable side checks, any tableau reachable from the trunk by ANY finite sequence of legal steps (operator, quantifier, modal, closure, frame, identity, quit-flag steps) with all branches closed admits no countermodel in any structure of the logic (arbitrary worlds/domains, frame condition, documented tables). Since the derivation is arbitrary, every optimisation option, tie-break order, build/step loop and premise order is inside the quantifier. Instantiated for all 57 logics (Ptx.Gen.Obl.<L>.c01_valid_sound). Real runs are replayed step by step (each step must be a legal instance, final branches equal node for node), so the theorem applies to those runs; rules outside the sound part (Bochvar and FDE biconditional rules: known findings) exclude a run from the theorem and send it to the countermodel search.',
+   note=TB + ' A quantifier step is legal in the model only on a compound whose body does not re-bind its variable and contains nothing the logic leaves uninterpreted (true of every sentence the parsers accept). Rules failing the soundness side check (known findings) are outside the calculus the theorem talks about. Spec structures interpret classical Identity as real identity.'),
  'C06': dict(level='proof', technique='Lean 4 proof by induction over all histories of append/copy/tick on a forest of branches, freshness stated against an independent walk of the nodes on the branch; correspondence exhaustive to depth 5 + witness-rule sweep over all 57 logics',
    text='BranchState mirrors Branch.append/copy/new_constant/new_world line by line. C06_fresh_all_histories: after any finite history, on every branch the offered constant occurs in no sentence on it and the offered world in no node on it (freshness stated against the nodes actually present, plus cached sets = walked sets); copies are independent. The legacy (pre-c02e76b) rule is proved not fresh. That every witness rule of every logic uses the offered item is checked on real runs (all 57 logics, constants/worlds out of order and non-initial), and — for legality — by the C01 replay (fresh-witness condition of every new-constant / new-world step).',
    note=TB2 + 'The witness-rule clause is a correspondence/oracle check over real runs, not a theorem.'),
